@@ -73,6 +73,9 @@ def three_way(rng, k, p, mx, steps, extra, entry=None, hooks=()):
         body.append({"op": "step"})
         if rng.random() < 0.08:
             body.append({"op": "execute"})
+        if rng.random() < 0.06:
+            # the limit is changed in mid-run: raised, set to the number already executed, or lowered BELOW it
+            body.append({"op": "set_max_instructions", "n": rng.choice([0, 1, 2, 3, max(0, i - 1), i, i + 1, i + 2, 50])})
     c = xc.scenario(f"p{k}e", p, pre, body, entry)
     return [a, b, c], {b["id"]: a["id"]}
 
